@@ -258,6 +258,8 @@ def run_chunk(common, ch, cfgs_of, maxlen, label="engine", sanitize=False):
             env = dict(os.environ)
             env["VH_ECHO"] = "1"
             env["ASAN_OPTIONS"] = "detect_leaks=0"
+            if sanitize:
+                env["VH_NOTAIL"] = "1"
             pi = subprocess.run([exe, "run", cases], stdout=subprocess.PIPE, stderr=subprocess.PIPE, text=True, errors="replace", timeout=900, env=env)
         except subprocess.TimeoutExpired:
             K.error = "implementation run timed out (possible endless loop in the changed library)"
